@@ -2595,7 +2595,8 @@ impl Formatter {
       if i == 0 {
         src = format!("{}", s);
       } else {
-        src = format!("{},{}", src, s);
+        // (a bare comma after a dotted name would read as a swizzle: `x[a.b,c]`)
+        src = if self.html { format!("{},{}", src, s) } else { format!("{}, {}", src, s) };
       }
     }
     if self.html {
